@@ -110,7 +110,7 @@ func filterCommand(cmd *cobra.Command, args []string) {
 					tq.RemoteRef(currentRemoteRef()),
 					tq.WithBatchSize(cfg.TransferBatchSize()),
 				)
-				go infiniteTransferBuffer(q, available)
+				go infiniteTransferBuffer(q.Watch(), available)
 			}
 
 			w = pktline.NewPktlineWriter(os.Stdout, smudgeFilterBufferCapacity)
@@ -248,11 +248,10 @@ func filterCommand(cmd *cobra.Command, args []string) {
 
 // infiniteTransferBuffer streams the results of q.Watch() into "available" as
 // if available had an infinite channel buffer.
-func infiniteTransferBuffer(q *tq.TransferQueue, available chan<- *tq.Transfer) {
-	// Stream results from q.Watch() into chan "available" via an infinite
-	// buffer.
-
-	watch := q.Watch()
+func infiniteTransferBuffer(watch <-chan *tq.Transfer, available chan<- *tq.Transfer) {
+	// Stream results from "watch" (the queue's q.Watch() channel, which
+	// the caller must obtain before the queue can possibly be closed) into
+	// chan "available" via an infinite buffer.
 
 	// pending is used to keep track of an ordered list of available
 	// `*tq.Transfer`'s that cannot be written to "available" without
